@@ -126,6 +126,13 @@ def fr(x):
     return F(float(x))
 
 
+def point_sensitivity(kn, theta, shift_mag):
+    """1 + |unreduced argument| / (4 h_min): head-room for a re-association of the float expression of an evaluation point
+    (<= 2 ulp of the unreduced argument) times the Lipschitz bound 2 max|coef| / h_min of a spline with simple knots"""
+    h = min(F(float(b)) - F(float(a)) for a, b in zip(kn[:-1], kn[1:]) if b > a)
+    return 1 + (fr(np.abs(theta).max()) + abs(fr(shift_mag))) / (4 * h)
+
+
 # ----------------------------------------------------------------------------------------------
 # case construction
 
@@ -274,10 +281,11 @@ def _run_case(chk, drv, case, stats):
     M = [max(abs(fr(x)) for x in c) for c in coefs]
     worst = F(0)
     bad = None
+    sens = [point_sensitivity(B['kn'], B['theta'], np.float64(dtheta) * s) for s in sh]
     for q in range(nq):
         for i in range(nz):
             ex = F(mo['out'][q][i])
-            scale = sum((abs(lc[k]) + kap[k] / 64) * M[(i + sh[k]) % nz] for k in range(nL))
+            scale = sum((abs(lc[k]) * sens[k] + kap[k] / 64) * M[(i + sh[k]) % nz] for k in range(nL))
             err = abs(fr(f[q, i]) - ex)
             if scale > 0:
                 worst = max(worst, err / (F(common.EPS) * scale))
@@ -292,6 +300,15 @@ def _run_case(chk, drv, case, stats):
         stats['shifts_agree'] += 1
     elif case['fam'] == 'exact':
         chk.diff('stencil shifts (exact family)', tag, sh, st_sh)
+    qq = F(zDist) / F(dz)
+    if case['iota'] == 0.0 and qq.denominator == 1:
+        # contract of flux_exact_shift measured: the model's output is S_row(theta_q) exactly, the data is f0[q, row]
+        m_ = int(qq)
+        for q in range(nq):
+            for i in range(nz):
+                row = (i + m_) % nz
+                if M[row] > 0:
+                    stats['interp'] = max(stats['interp'], float(abs(F(mo['out'][q][i]) - fr(f0[q, row])) / (F(common.EPS) * M[row])))
     if case['fam'] == 'exact':
         # closed form (Props/C10.flux_step_formula) evaluated by the driver must equal the literal loops
         if stats['closed_form_checked'] < 3:
@@ -418,7 +435,7 @@ def run(chk):
                 'displacement; distinct by (family, nz, nq, spline degree/flag, nL, displacement or sub-seed)')
     chk.proof_side(build=not getattr(chk, 'no_build', False))
     drv = common.LeanDriver('C10.lean')
-    stats = {'worst': 0.0, 'shifts_agree': 0, 'closed_form_checked': 0}
+    stats = {'worst': 0.0, 'shifts_agree': 0, 'closed_form_checked': 0, 'interp': 0.0}
     rng = chk.rng
     try:
         n_exact, n_gen = chk.n(45, 450), chk.n(45, 450)
@@ -430,6 +447,7 @@ def run(chk):
         drv.close()
     chk.notes['max |code - model| / (eps * scale)'] = round(stats['worst'], 3)
     chk.notes['tolerance_factor'] = FACTOR
+    chk.notes['interpolation contract: max |S_row(theta_q) - f[q,row]| / (eps * max|coef|)'] = round(stats['interp'], 3)
     chk.notes['mechanism_agreement'] = {'stencil shifts equal to the model': stats['shifts_agree']}
     chk.assumptions = [
         'contract: theta-spline coefficients are taken from the real SplineInterpolator1D on the same rows (interpolation = C08)',
